@@ -574,6 +574,78 @@ def build():
                7: LoopSpec([cm_inv_map(True)], index="_c7", havoc=[cm_havoc(7)], steps=[cm_step_cell("_c7", 7)])},
         canaries=[lambda ex, env: z3.And(T(env["g_mapid"]) != 0, env["g_nranges"].t == 2)]))
 
+    # ------------------------------------------------------------------ Table.merge_ranges: read from the table's CURRENT cells
+    # result: one A1 range per cell of the current grid that reports is_merged - origin that cell's own position, extent its own size - and
+    # nothing else (no range for cells the table no longer has, whatever the model's merge map still lists)
+    MRG = z3.Function("C12_cell_is_anchor", Int, Int, z3.BoolSort())
+    MH, MW = z3.Function("C12_anchor_rows", Int, Int, Int), z3.Function("C12_anchor_cols", Int, Int, Int)
+    NCOLS = z3.Function("C12_row_length", Int, Int)
+
+    class CellsOfRow(Custom):
+        def __init__(self, r):
+            self.r = r
+
+        def length(self, ex):
+            return NCOLS(self.r)
+
+        def getitem(self, ex, idx, line):
+            c = T(idx)
+            return PObj("CellMR", {"is_merged": SBool(MRG(self.r, c)), "size": (wrap(MH(self.r, c)), wrap(MW(self.r, c)))})
+
+    class RowsMR(Custom):
+        def __init__(self, n):
+            self.n = n
+
+        def length(self, ex):
+            return self.n
+
+        def getitem(self, ex, idx, line):
+            ex.assume(NCOLS(T(idx)) >= 0)
+            return CellsOfRow(T(idx))
+
+    class RangeSet(Custom):
+        def __init__(self):
+            self.count, self.last = wrap(z3.IntVal(0)), None
+
+        def method(self, ex, name, args, kwargs, line):
+            if name != "add" or not (isinstance(args[0], PObj) and args[0].cls == "RangeText"):
+                ex.oblige(f"range-added@L{line}: what is collected is an A1 range", z3.BoolVal(False), "ghost", line)
+                return
+            self.last, self.count = args[0], wrap(T(self.count) + 1)
+
+    def mr_entry(ex):
+        n = z3.Int(fresh_name("n_rows"))
+        ex.assume(n >= 0)
+        rs = RangeSet()
+        return {"self": PObj("TableMR", {"_data": RowsMR(n), "_model": PObj("ModelMR", {}), "_table_id": ex.fresh("int", "table_id")}), "g_set": rs, "g_n": wrap(n)}
+    plan.callee(Contract("xrefs:xl_range", label="recorded", model=lambda ex, a, k, l: PObj("RangeText", {"args": tuple(a)}), when=lambda a: True,
+                         note="ghost model used by the merge_ranges contract only: records the four coordinates (xl_range itself is C10's contract)"))
+
+    def mr_havoc(tag):
+        def hv(ex, env):
+            rs = ex.entry_env["g_set"]
+            rs.count, rs.last = ex.fresh("int", "ranges"), None
+            ex.entry_env[f"g_cnt_{tag}"] = rs.count
+        return hv
+
+    def mr_step(ex, env):
+        rs = ex.entry_env["g_set"]
+        r, c = T(env["_r"]), T(env["_c"])
+        before = T(ex.entry_env["g_cnt_inner"])
+        if rs.last is None:
+            return z3.And(z3.Not(MRG(r, c)), T(rs.count) == before)
+        a = rs.last.fields["args"]
+        return z3.And(MRG(r, c), T(rs.count) == before + 1, z3.BoolVal(len(a) == 4), T(a[0]) == r, T(a[1]) == c, T(a[2]) == r + MH(r, c) - 1, T(a[3]) == c + MW(r, c) - 1)
+
+    def mr_post(ex, env):
+        return z3.BoolVal(env["result"] is env["g_set"])
+    mr_post.__name__ = "the result is the sorted set collected from the table's current cells"
+    plan.target(Contract("document:Table.merge_ranges", entry=mr_entry, ensures=[mr_post], safety="fork", use_labels={"xrefs:xl_range": "recorded"},
+                         search=lambda plan_, c: {"custom": "search_reopen_merges", "native_module": plan_.native_module},
+                         opaque={"set()": lambda ex, env: ex.entry_env["g_set"], "sorted(merge_cells)": lambda ex, env: env["merge_cells"]},
+                         loops={1: LoopSpec([lambda ex, env: z3.BoolVal(True)], index="_r", havoc=[mr_havoc("outer")]),
+                                2: LoopSpec([lambda ex, env: z3.BoolVal(True)], index="_c", havoc=[mr_havoc("inner")], steps=[mr_step])}))
+
     # ------------------------------------------------------------------ Table.write: the written cell keeps the merge state of ITS position
     class GridW(Custom):
         """self._data of Table.write: one store at (row, col), later reads of the same position return the stored cell"""
